@@ -57,7 +57,7 @@ def parseTree : Nat → List Char → Option (Tree × List Char)
         pure (instanceStepTree frm.toNat to.toNat step.toNat dur, skipBraces r)
     | 'C' :: '(' :: r => do
         let (kids, r) ← parseKids fuel r []
-        pure (Tree.comp kids, r)
+        pure (Tree.comp kids, skipBraces r)
     | _ => none
 def parseKids : Nat → List Char → List Tree → Option (List Tree × List Char)
   | 0, _, _ => none
@@ -315,6 +315,9 @@ def handleStress (kv : List (String × String)) (impl : String) : String × Stri
   match parseTree (treeS.length + 1) treeS.toList with
   | some (t, []) =>
     let A0 : Abs := if started then .running (inst (flat t) 0) else .unstarted (flat t)
+    let (impl, cbS) := match impl.splitOn "#CB:" with
+      | [a, b] => (a, some b)
+      | _ => (impl, none)
     let callers := (splitList impl "|").map (fun c => splitList c ",")
     let all := callers.flatten
     if all.any (·.startsWith "P") then ("-", s!"fail:panic:a call panicked: {impl.take 100}") else
@@ -340,7 +343,12 @@ def handleStress (kv : List (String × String)) (impl : String) : String × Stri
             !okRange
         match badL with
         | some l => s!"fail:left:{l} is not the flat spec's count (or -1) for any number of draws in its interval"
-        | none => "ok"
+        | none =>
+          -- callbackOnFinishSchedule: once, as soon as some Next returned !ok or some Left returned 0
+          let fin := all.any fun e => (e.startsWith "N:" && e.endsWith ":0") || e.startsWith "L:0@"
+          match cbS with
+          | some c => if c == (if fin then "1" else "0") then "ok" else s!"fail:onfinish:onFinish ran {c} times, finishing results seen: {fin}"
+          | none => "ok"
     ("-", verdict)
   | _ => ("-", "fail:driver:unparsable tree")
 
